@@ -141,7 +141,7 @@ def c11(chk):
                        detail={'leaf': dump_leaf(lf, prog, na)})
         else:
             chk.ob('C11.c', r.sub, True)
-    chk.floor('returning leaves of process_packet', n, 120)
+    chk.floor('returning leaves of process_packet', n, 90)
 
 
 # ------------------------------------------------------------------------------ C12
